@@ -111,7 +111,19 @@ def r2(ctx):
     ctx.need(n >= 6, 'sky classes with sizes', f'only {n}')
 
 
+def r3(ctx):
+    """a conversion leaves the sky region as it was (C13.R1 restricted to the sky -> pixel path): the pixel image of the
+    same region on the same WCS is the same the second time — a conversion that updates the region's own angle or
+    sizes in place (`angle = self.angle; angle += ...`) makes every later image wrong."""
+    from .c09 import _SubCtx
+    from .c13 import r1 as c13r1
+    sub = _SubCtx(ctx, lambda c: any(k in c for k in ('to_pixel', 'wcs_helpers', 'SkyRegion.contains')))
+    c13r1(sub)
+    sub.flush('no write reaches the region or the WCS on the sky -> pixel path', 'sky -> pixel conversion')
+
+
 RULES = [
     RuleDef('R1', 'helper: north offset, scale and angle formulas, tuple order', r1, 1),
     RuleDef('R2', 'to_pixel uses centre/scale/angle as the statement dictates', r2, 6),
+    RuleDef('R3', 'the conversion does not modify the region it converts (C13.R1 on the sky -> pixel path)', r3, 1),
 ]
